@@ -50,3 +50,13 @@ Definition sig_of_env (e : envelope) : sigstate :=
 
 Definition sigop_wf (o : sigop) : Prop :=
   match o with OpSign h sg => length h = 20%nat /\ length sg = 64%nat | OpClear => True end.
+
+(* ---------- Claim.get_message: the typed views stream / channel / collection / repost ---------- *)
+(* cur = the type the claim already has (None for a fresh claim), req = the view asked for.
+   Result: the type afterwards and whether the view is granted (false = ValueError 'Claim is not a ...').
+   Only a claim without a type takes the requested one; a typed claim is never changed by a request. *)
+Definition claim_view (cur : option N) (req : N) : option N * bool :=
+  match cur with
+  | None => (Some req, true)
+  | Some c => (Some c, N.eqb c req)
+  end.
